@@ -273,4 +273,41 @@ theorem decodeUtf8Fuel_complete : ∀ (cs : List Char) (fuel : Nat), (utf8 cs).l
 theorem decodeUtf8_complete (cs : List Char) : decodeUtf8 (utf8 cs) = some cs :=
   decodeUtf8Fuel_complete cs _ (Nat.le_refl _)
 
+/-! ### the hand-written encoder is Lean core's UTF-8 encoder, for every scalar value -/
+
+/-- `utf8Char` = `String.utf8EncodeChar` (the encoder behind `String.toUTF8`), byte for byte -/
+theorem utf8Char_core (c : Char) : (String.utf8EncodeChar c).map UInt8.toNat = utf8Char c := by
+  have hv := char_toNat_lt c
+  have hn : c.val.toNat = c.toNat := rfl
+  unfold String.utf8EncodeChar utf8Char
+  simp only [hn]
+  by_cases h1 : c.toNat < 0x80
+  · have : c.toNat ≤ 127 := by omega
+    simp [h1, this]; omega
+  · by_cases h2 : c.toNat < 0x800
+    · have a : ¬ c.toNat ≤ 127 := by omega
+      have b : c.toNat ≤ 2047 := by omega
+      simp [h1, h2, a, b]; omega
+    · by_cases h3 : c.toNat < 0x10000
+      · have a : ¬ c.toNat ≤ 127 := by omega
+        have b : ¬ c.toNat ≤ 2047 := by omega
+        have d : c.toNat ≤ 65535 := by omega
+        simp [h1, h2, h3, a, b, d]; omega
+      · have a : ¬ c.toNat ≤ 127 := by omega
+        have b : ¬ c.toNat ≤ 2047 := by omega
+        have d : ¬ c.toNat ≤ 65535 := by omega
+        simp [h1, h2, h3, a, b, d]; omega
+
+
+/-- … hence `utf8 cs` is exactly the bytes of the Lean string with these characters -/
+theorem utf8_core (cs : List Char) :
+    (String.ofList cs).toUTF8.data.toList.map UInt8.toNat = utf8 cs := by
+  have h : (String.ofList cs).toUTF8 = cs.utf8Encode := by simp
+  rw [h, List.utf8Encode]
+  clear h
+  simp only [List.data_toByteArray]
+  induction cs with
+  | nil => rfl
+  | cons c cs ih => simp only [List.flatMap_cons, List.map_append, utf8Char_core, ih, utf8_cons]
+
 end Log4rs
